@@ -171,6 +171,163 @@ def _subtree(task):
     return n, ood, agree, hashes, viols.records(), sample
 
 
+# ---------------------------------------------------------------------------------------------------------
+# grammar-driven statements: every sentence of the rule `statement` up to L tokens, enumerated from the .g4
+
+GTEXT = {"PLUS": "+", "MINUS": "-", "TIMES": "*", "DIVIDE": "/", "PWR": "**", "ASSIGN": "=", "INT": "2", "FLOAT": "0.5", "COMPLEX": "1+2j", "PI": "pi",
+         "STR": '"s"', "BOOL": "True", "SQRT": "sqrt", "EXP": "exp", "COMMA": ",", "LBRAC": "(", "RBRAC": ")", "LSQBRAC": "[", "RSQBRAC": "]",
+         "LBRACE": "{", "RBRACE": "}", "APPLY": "|", "MEASURE": "MeasureX", "NEWLINE": "\n"}
+GPRE = "int n = 2\nint array A =\n    1, 2, 3, 4\n"
+GDECLS = [("decl", "int", "n", N("2")), ("arr", "int", "A", None, [[N("1"), N("2"), N("3"), N("4")]])]
+
+
+def gtexts(toks):
+    """concrete text per token (NAME depends on its role, REGREFs alternate)"""
+    out = []
+    nreg = 0
+    for i, t in enumerate(toks):
+        if t == "NAME":
+            nxt = toks[i + 1] if i + 1 < len(toks) else None
+            if i == 0:
+                out.append("G")
+            elif nxt == "ASSIGN":
+                out.append("k%d" % sum(1 for x in out if x.startswith("k") and x[1:].isdigit()))
+            elif nxt == "LSQBRAC" and toks[i - 1] != "LBRACE":
+                out.append("A")
+            else:
+                out.append("n")
+        elif t == "REGREF":
+            out.append("q%d" % nreg)         # distinct registers, so that none cancels identically
+            nreg += 1
+        else:
+            out.append(GTEXT[t])
+    return out
+
+
+def _has_fn_of_symbol(v):
+    from bbv.model.denote import Sym
+
+    def w(t):
+        if isinstance(t, tuple):
+            if t and t[0] == "fn":
+                return any(isinstance(x, tuple) and _contains_sym(x) for x in t[1:])
+            return any(w(x) for x in t[1:])
+        return False
+
+    def _contains_sym(t):
+        if isinstance(t, tuple):
+            if t and t[0] in ("p", "q"):
+                return True
+            return any(_contains_sym(x) for x in t[1:])
+        return False
+    if isinstance(v, Sym):
+        return w(v.tree) or (v.tree[0] == "fn" and _contains_sym(v.tree))
+    if isinstance(v, list):
+        return any(_has_fn_of_symbol(x) for x in v)
+    return False
+
+
+@common.guarded("C02")
+def gcheck(toks):
+    """returns None (agree) | 'skip:<why>' | (key, detail)"""
+    from bbv.model import refparse
+    from bbv.g4 import sentences as S_
+    texts = gtexts(toks)
+    line = S_.to_text(toks, dict(zip(toks, texts))) if False else _join(toks, texts)
+    script = "name g\nversion 1.0\n\n" + GPRE + line + ("" if line.endswith("\n") else "\n")
+    body = [x for t, x in zip(toks, texts) if t != "NEWLINE"]
+    try:
+        stmt, readings = refparse.parse_statement(body)
+    except refparse.Bad as e:
+        return "skip:reference-parser:" + str(e)[:20]
+    vals = []
+    for rd in readings:
+        try:
+            m = denote.Model().run(dict(name="g", version="1.0", items=GDECLS + [stmt[:4] + (rd, "none")]))
+            vals.append(m)
+        except (denote.OutOfDomain, denote.Refused, IndexError, TypeError, KeyError, AttributeError, ZeroDivisionError, OverflowError):
+            vals.append(None)
+    ok = [m for m in vals if m is not None]
+    if not ok:
+        return "skip:model-rejects"
+    if len(ok) > 1 and ok[0].ops[-1]["modes"] != ok[1].ops[-1]["modes"]:
+        return "skip:ambiguous-mode-brackets"
+    m = ok[0]
+    o = m.ops[-1]
+    if any(_has_fn_of_symbol(v) for v in (o["args"] or [])) or any(_has_fn_of_symbol(v) for _, v in (o["kwargs"] or [])):
+        return "skip:function-of-symbol"
+    regs_and_params = False
+    for v in list(o["args"] or []) + [v for _, v in (o["kwargs"] or [])]:
+        for x in (v if isinstance(v, list) else [v]):
+            if isinstance(x, denote.Sym):
+                kinds = {t[0] for t in x.syms()}
+                if kinds == {"p", "q"}:
+                    regs_and_params = True
+    if regs_and_params:
+        return "skip:parameter-and-register-in-one-expression"
+    st, p = common.loads(script)
+    if st == "exc":
+        return ("C02/grammar-driven:load-raises:" + type(p).__name__, common.exc_sig(p) + " ;; " + line.strip())
+    errs = denote.compare(m, p)
+    if not errs:
+        return None
+    # classifier shared with the menu part: empty list keywords
+    dropped = False
+    for oo in m.ops:
+        if oo["kwargs"]:
+            kept = [(k, v) for k, v in oo["kwargs"] if v != []]
+            if len(kept) != len(oo["kwargs"]):
+                dropped = True
+                oo["kwargs"] = kept
+    if dropped and not denote.compare(m, p):
+        return ("C02/empty-list-keyword", "; ".join(errs) + " ;; " + line.strip())
+    return ("C02/grammar-driven:mismatch:" + "|".join(sorted(set(e.split("-", 1)[1] if e.startswith("op") else e.split(" ")[0] for e in errs))), "; ".join(errs)[:200] + " ;; " + line.strip())
+
+
+def _join(toks, texts):
+    out = []
+    prev = None
+    for t, x in zip(toks, texts):
+        if prev is not None and prev != "NEWLINE" and t != "NEWLINE":
+            out.append(" ")
+        out.append(x)
+        prev = t
+    return "".join(out)
+
+
+def _gchunk(chunk):
+    st = collections.Counter()
+    V = common.Violations(keep=3)
+    sample = None
+    for toks in chunk:
+        r = gcheck(toks)
+        st["sentences"] += 1
+        if r is None:
+            st["agree"] += 1
+            sample = _join(toks, gtexts(toks)).strip()
+        elif isinstance(r, str):
+            st[r] += 1
+        else:
+            V.add(r[0], {"tokens": list(toks)}, r[1])
+    return dict(st), V.records(), sample
+
+
+def grammar_statements(budget):
+    from bbv.g4 import sentences as S_, syntax
+    o = syntax.Oracle()
+    full = S_.interchange_classes(o.G)
+    col = {}
+    for t, rep in full.items():
+        if rep == full.get("SIN"):
+            col[t] = "EXP" if t == "EXP" else "SQRT"
+        elif rep == full.get("TYPE_INT"):
+            col[t] = rep
+    col["SQRT"] = "SQRT"
+    col["EXP"] = "EXP"
+    per = S_.per_rule_sentences(o.G, ["statement", "arguments"], col, budget)
+    return per["statement"], per["arguments"]
+
+
 def _long(sc):
     return check_script(sc)
 
@@ -244,10 +401,35 @@ def run(ctx):
         else:
             allv.add(r[0] if r[0] == "C02/empty-list-keyword" else r[0] + ":long-script", {"text": lang.render(sc), "ast": repr(sc)}, r[1])
     bounds.append({"family": "long scripts: all %d statement events of the menu in one script, every %s rotation" % (len(stmts), "4th" if ctx.quick else ""), "scripts": nlong})
+    # grammar-driven statements
+    (L, sents), (LA, asents) = grammar_statements(300000 if ctx.quick else 3000000)
+    if ctx.quick:
+        asents = [a for a in asents if len(a) <= LA - 1]      # arguments: one token less in the quick tier
+        LA -= 1
+    # argument lists are mostly well-formed: each is embedded as  G<arguments> | 2
+    sents = list(sents) + [("NAME",) + a + ("APPLY", "INT") for a in asents]
+    sents = common.shard(sents, ctx.seed)
+    chunks = [sents[i:i + 500] for i in range(0, len(sents), 500)]
+    gst = collections.Counter()
+    for r in pool.pmap(_gchunk, chunks, chunk=1, timeout=3600):
+        if r == "TIMEOUT":
+            allv.add("C02/no-outcome", {"text": "grammar-driven chunk", "ast": "None"}, "timeout")
+            continue
+        st_, vr, smp = r
+        gst.update(st_)
+        allv.merge(vr)
+        if smp and len(samples) < 9 and len(smp) > 25:
+            samples.append(smp)
+    stats["evaluations"] += gst["sentences"]
+    stats["agree"] += gst["agree"]
+    gdistinct = gst["agree"] + sum(c for k, c in allv.count.items() if "grammar-driven" in k)
+    bounds.append({"family": "grammar-driven: ALL sentences of the rule `statement` with <= %d tokens enumerated from blackbird.g4 (token classes kept apart except the 15 functions -> 2), "
+                   "and ALL sentences of the rule `arguments` with <= %d tokens embedded as G<arguments> | 2; parsed by an independent reference parser, evaluated by the model" % (L, LA), "sentences": gst["sentences"], "compared_with_model": gst["agree"],
+                   "skipped": {k: v for k, v in gst.items() if k.startswith("skip:")}})
     if not samples:
         samples = [lang.render(dict(A.METAS[0], items=[events(set(), ctx.tier)[9]]))]
     cov = {
-        "evaluations": stats["evaluations"], "distinct_nontrivial": len(distinct),
+        "evaluations": stats["evaluations"], "distinct_nontrivial": len(distinct) + gdistinct,
         "rule": "breadth-first enumeration of ALL item sequences over the statement menu (events valid in the current environment) "
                 "up to the depth listed per phase in `bounds`; every prefix is rendered, loaded and compared with the reference denotation; "
                 "non-trivial = script with >=1 statement or loop; distinct = distinct rendered text (hashed)",
@@ -260,6 +442,9 @@ def run(ctx):
 
 
 def replay(case):
+    if "tokens" in case:
+        r = gcheck(tuple(case["tokens"]))
+        return isinstance(r, tuple), repr(r)[:300]
     sc = pyast.literal_eval(case["ast"])
     r = check_script(sc)
     if r in (None, "ood"):
